@@ -214,17 +214,28 @@ pub fn load_value_mode(doc: &Value, name: &str, mode: Mode) -> Result<Loaded, St
     }
     let mem = pi.get("public_memory").and_then(|v| v.as_array()).ok_or("no public_memory")?;
     let mut main_page = Vec::new();
+    let mut first_cell: Option<AddrValue> = None;
     for m in mem {
         let page = u64_of(m.get("page").ok_or("no page")?, "page")?;
-        if page != 0 {
-            return err("continuous pages are not supported by this loader");
-        }
-        main_page.push(AddrValue {
+        let cell = AddrValue {
             address: Felt::from(u64_of(m.get("address").ok_or("no address")?, "address")?),
             value: hex_felt(m.get("value").and_then(|v| v.as_str()).ok_or("no value")?)?,
-        });
+        };
+        if first_cell.is_none() {
+            // the padding cell is the first public-memory entry of the file, whatever its page
+            first_cell = Some(AddrValue { address: cell.address, value: cell.value });
+        }
+        if page != 0 {
+            if mode == Mode::Hex {
+                return err("continuous pages are not supported by this loader");
+            }
+            // text mode: cells of continuous pages are not part of the main page; their headers
+            // are not modelled (the CLI conversion passes none to the verifier)
+            continue;
+        }
+        main_page.push(cell);
     }
-    let first = main_page.first().ok_or("empty public memory")?;
+    let first = first_cell.ok_or("empty public memory")?;
     let public_input = PublicInput {
         log_n_steps: Felt::from(log_n_steps),
         range_check_min: Felt::from(u64_of(pi.get("rc_min").ok_or("no rc_min")?, "rc_min")?),
